@@ -9,10 +9,13 @@
    Hence, for EVERY token sequence: the front-end driver never panics, accepts exactly
    the sentences of the grammar of record, and a rejection returns the first token after
    which no valid file can continue (not too late; "not too early" as in C03 is decided
-   per input by the check's Earley oracle over the published grammar). *)
+   per input by the check's Earley oracle over the published grammar).
+   And for every source text: a syntax error of the front end carries exactly the byte span
+   and the text of that token in the source (or the empty span at the end of the source when
+   the input ended too early) — C09_parse_error_is_exact, from Lex/Spans.v. *)
 From Coq Require Import List Arith.
 From Kiki Require Import Base.Ord Base.Chars Data LR.Driver LR.Grammar LR.Inv LR.Complete LR.Sound LR.ErrPos
-  LR.Validate LR.Term LR.ValidateProofs Front.KikiGrammar Front.Parse Front.KikiValid.
+  LR.Validate LR.Term LR.ValidateProofs Lex.Model Ast.Validate Front.KikiGrammar Front.Parse Front.KikiValid Front.FrontProofs.
 From Kiki Require Gen.KikiTables Gen.KikiAnn.
 Import ListNotations.
 
@@ -66,9 +69,22 @@ Proof.
                     w (all_tokens_bounded w)).
 Qed.
 
+Theorem C09_parse_error_is_exact : forall src tokens fuel e,
+  tokenize src = Ok tokens -> front_parse fuel src tokens = Err e ->
+  exists consumed rest,
+    tokens = consumed ++ rest /\
+    (forall x r z, rest = x :: r -> ~ sentence token_kind kiki_ptable (consumed ++ x :: z)) /\
+    match rest with
+    | [] => e = EParse (blen src) [] (blen src)
+    | tk :: _ => exists pre mid post, src = pre ++ mid ++ post /\ token_start tk = Ok (blen pre) /\
+                                      token_content_len tk = blen mid /\ e = EParse (blen pre) mid (blen pre + blen mid)%N
+    end.
+Proof. exact front_parse_error_exact. Qed.
+
 Print Assumptions C09_grammar_of_record.
 Print Assumptions C09_front_end_terminates.
 Print Assumptions C09_front_end_never_panics.
 Print Assumptions C09_accepts_only_sentences.
 Print Assumptions C09_accepts_every_sentence.
 Print Assumptions C09_reject_position.
+Print Assumptions C09_parse_error_is_exact.
